@@ -27,7 +27,7 @@ import numpy as np
 from .. import archetypes, boot, reader
 from ..genrun import WallTimeout, _alarm
 from ..seams import DrawDiverges, World
-from ..simrng import BudgetExceeded, InjectedInterrupt, InjectedRngError, Scheduler, SimAbort, SimRng
+from ..simrng import BudgetExceeded, InjectedInterrupt, InjectedRngError, InjectedValueError, Scheduler, SimAbort, SimRng
 
 LEVEL = "fault_enumeration"
 TECHNIQUE = ("deterministic simulation: seeded operation histories over shared parsed objects with crash-point enumeration inside "
@@ -349,7 +349,7 @@ def spec_from_seed(run_seed, tier):
         op = rnd.choice(OPS)
         o = {"op": op, "in": rnd.randrange(n_in), "inst": rnd.randrange(3), "seed": rnd.choice([1, 2, 3, 7, 42, rnd.randrange(1000)])}
         if op == "gen_fault":
-            o["fault"] = rnd.choice(["rng_raise", "rng_interrupt", "embed_fail"])
+            o["fault"] = rnd.choice(["rng_raise", "rng_interrupt", "rng_value", "embed_fail"])
             o["frac"] = rnd.random()
         if op == "perturb_global":
             o["n"] = rnd.choice([1, 3, 17, 100])
@@ -358,10 +358,10 @@ def spec_from_seed(run_seed, tier):
         ops.append(o)
     enum = None
     if tier == "thorough" and rnd.random() < 0.4:
-        enum = {"in": rnd.randrange(n_in), "seed": rnd.randrange(100), "fault": rnd.choice(["rng_raise", "rng_interrupt", "embed_fail"]),
+        enum = {"in": rnd.randrange(n_in), "seed": rnd.randrange(100), "fault": rnd.choice(["rng_raise", "rng_interrupt", "rng_value", "embed_fail"]),
                 "max": 150}
     elif rnd.random() < 0.3:
-        enum = {"in": rnd.randrange(n_in), "seed": rnd.randrange(100), "fault": rnd.choice(["rng_raise", "rng_interrupt", "embed_fail"]),
+        enum = {"in": rnd.randrange(n_in), "seed": rnd.randrange(100), "fault": rnd.choice(["rng_raise", "rng_interrupt", "rng_value", "embed_fail"]),
                 "max": 6}
     return {"kind": "history", "prop": "C10", "inputs": inputs, "ops": ops, "global_seed": rnd.randrange(1 << 30), "enumerate": enum,
             "fresh_interpreter": tier == "thorough" and rnd.random() < 0.03}
@@ -631,20 +631,20 @@ class _Client:
         residues = max(1, len(reader.read_system(inp["text"]).residues()) if inp["kind"] == "system" else 1)
         rng, sched = _make_rng("sim", o["seed"])
         self.mutating += 1
-        if fault in ("rng_raise", "rng_interrupt"):
+        if fault in ("rng_raise", "rng_interrupt", "rng_value"):
             if calls == 0:
                 return None
             kk = k if k is not None else min(calls - 1, int(frac * calls))
             if kk >= calls:
                 return "done"
-            sched.faults[kk] = "raise" if fault == "rng_raise" else "interrupt"
+            sched.faults[kk] = {"rng_raise": "raise", "rng_interrupt": "interrupt", "rng_value": "value"}[fault]
             try:
                 obj.generate(rng=rng)
                 if sched.fired:
                     self.viol("fault_swallowed", f"{fault}@{kk} inside generate was swallowed")
                 else:
                     self.count("fault_not_reached")
-            except (InjectedRngError, InjectedInterrupt):
+            except (InjectedRngError, InjectedInterrupt, InjectedValueError):
                 self.count("fault:" + fault)
             except SimAbort:
                 raise
